@@ -24,7 +24,8 @@ def get_in(d, path, default=None):
     '''
     if path:
         head = path[0]
-        if head in d:
+        # (below a value that is not a dictionary there is nothing)
+        if isinstance(d, dict) and head in d:
             return get_in(d[head], path[1:], default)
         return default
     return d
@@ -38,7 +39,7 @@ def delete_in(d, path):
     >>> d
     {'a': {'d': 'e'}}
     '''
-    if len(path) > 0:
+    if len(path) > 0 and isinstance(d, dict):
         head = path[0]
         if len(path) == 1:
             # at the node to be deleted
